@@ -534,10 +534,11 @@ def gen_history(seed, tier, classes=None, weights=None, n_ops=(6, 16),
           # put the drawn value back before anything is fitted with it (it was
           # drawn for the data at hand; the detour must leave no trace)
           old_v = (getattr(s, "params", None) or {}).get(key, "<default>")
-          if old_v == "<default>":
-            fit_op(s, s.data, regen=True)
-          else:
-            ops.append(dict(op="set_params", h=s.hid, params={key: old_v}, nondata=True))
+          if isinstance(old_v, str) and old_v == "<default>":
+            import inspect
+            from .estimators import cls_of
+            old_v = inspect.signature(cls_of(s.name).__init__).parameters[key].default
+          ops.append(dict(op="set_params", h=s.hid, params={key: old_v}, nondata=True))
     elif k == "failfit":
       ops.append(dict(op="fit", h=s.hid, data=s.data, via="formed",
                       malformed=r.choice(["nan", "short_y"])))
